@@ -19,6 +19,7 @@ pub mod c20;
 pub mod kb;
 pub mod miri;
 pub mod smoke;
+pub mod sys;
 pub mod wire;
 
 use crate::util::{Params, Report};
@@ -45,6 +46,7 @@ pub fn dispatch(prop: &str, p: &Params) -> Option<Report> {
         "C20" => c20::run(p),
         "C09" => c09::run(p, "C09"),
         "C10" => c09::run(p, "C10"),
+        "SYS" => sys::run_debug(p),
         _ => return None,
     })
 }
